@@ -7,7 +7,7 @@
 name=$1; patch=$2; shift 2
 T=/tmp/vt/$name
 rm -rf $T; mkdir -p $T
-git -C /repo worktree add -q --detach $T/repo HEAD || exit 9
+git -C /repo worktree add -q --detach $T/repo ${BASE:-HEAD} || exit 9
 if [ "$patch" != "-" ]; then
   (cd $T/repo && git apply "$patch") || { echo "$name PATCH-DOES-NOT-APPLY"; git -C /repo worktree remove --force $T/repo; rm -rf $T; exit 9; }
 fi
